@@ -92,7 +92,7 @@ def run_jobs(tier, props, which=('explored', 'empty', 'end', 'bound')):
     def add(cfg, **kw):
         cfg = dict(cfg, props=props)
         jobs.append(Job(RUN, cfg, pkg_key='sampler',
-                        max_paths=kw.get('max_paths', 8000)))
+                        max_paths=kw.get('max_paths', 8000), split=9))
     if 'explored' in which:
         for m, end, disc, nbs in [([1, 1], [1, 1], False, (1, 2)),
                                   ([1, 1], [1, 0], True,
